@@ -48,14 +48,38 @@ fn params(unit: &Value) -> (bool, i64, u64, u64, usize, usize) {
     )
 }
 
-/// keys chosen so that peer_id_of_key(K_SMALL) < peer_id_of_key(K_BIG)
-fn ordered_keys() -> (u8, u8) {
-    let (a, b) = (1u8, 2u8);
-    if peer_id_of_key(a) < peer_id_of_key(b) {
-        (a, b)
-    } else {
-        (b, a)
+/// keys (small, big) by the byte-wise lexicographic order of their identities — the order the
+/// property names; the subject's own `Ord` is deliberately not used here. `class` selects a pair
+/// whose first differing bytes stand in a particular relation:
+///   d80     they are exactly 0x80 apart          cross   one is below 0x80, the other at or above it
+///   wide    they are at least 0xf0 apart         eqfirst the identities agree on their first byte
+pub fn ordered_keys_for(class: &str) -> (u8, u8) {
+    static IDS: std::sync::OnceLock<Vec<[u8; 32]>> = std::sync::OnceLock::new();
+    let ids = IDS.get_or_init(|| (0..=255u8).map(|k| peer_id_of_key(k).0).collect());
+    let fits = |a: &[u8; 32], b: &[u8; 32]| -> bool {
+        // a < b byte-wise
+        let d = (0..32).find(|i| a[*i] != b[*i]).unwrap();
+        let (x, y) = (a[d], b[d]);
+        match class {
+            "d80" => y.wrapping_sub(x) == 0x80,
+            "cross" => x < 0x80 && y >= 0x80 && y - x < 0x40,
+            "wide" => y - x >= 0xf0,
+            "eqfirst" => d >= 1,
+            _ => true,
+        }
+    };
+    if class.is_empty() || class == "default" {
+        let (a, b) = (1u8, 2u8);
+        return if ids[a as usize] < ids[b as usize] { (a, b) } else { (b, a) };
     }
+    for i in 1..=255usize {
+        for j in 1..=255usize {
+            if ids[i] < ids[j] && fits(&ids[i], &ids[j]) {
+                return (i as u8, j as u8);
+            }
+        }
+    }
+    panic!("no key pair of class {class}");
 }
 
 pub async fn scenario_pub(sim: Arc<Sim>, unit: Value) -> Obs {
@@ -64,7 +88,7 @@ pub async fn scenario_pub(sim: Arc<Sim>, unit: Value) -> Obs {
 
 async fn scenario(sim: Arc<Sim>, unit: Value) -> Obs {
     let (a_greater, off_ms, lat_ab, lat_ba, _bound, fate_budget) = params(&unit);
-    let (small, big) = ordered_keys();
+    let (small, big) = ordered_keys_for(unit["ids"].as_str().unwrap_or(""));
     let (ka, kb) = if a_greater { (big, small) } else { (small, big) };
     let background = unit["dial"].as_str() == Some("background");
     let (a, b) = if background {
@@ -313,6 +337,59 @@ fn judge(o: &Obs) -> Judged {
     }
 }
 
+/// `PeerId`'s order against the byte-wise lexicographic order, for every pair of byte values at
+/// position `pos` (equal bytes before it, tails ordered the other way round).
+fn order_unit(unit: &Value, out: &mut UnitResult) {
+    use std::cmp::Ordering;
+    let pos = unit["pos"].as_u64().unwrap() as usize;
+    let mut bad = 0u64;
+    for x in 0..=255u8 {
+        for y in 0..=255u8 {
+            let mut a = [0x55u8; 32];
+            let mut b = [0x55u8; 32];
+            a[pos] = x;
+            b[pos] = y;
+            for i in pos + 1..32 {
+                // tails contradict the deciding byte
+                let (ta, tb) = if x < y { (0xff, 0x00) } else { (0x00, 0xff) };
+                a[i] = ta;
+                b[i] = tb;
+            }
+            if x == y && pos < 31 {
+                // equal deciding byte: the tails decide
+                a[31] = 0x7f;
+                b[31] = 0xff;
+                for i in pos + 1..31 {
+                    a[i] = 0x55;
+                    b[i] = 0x55;
+                }
+            }
+            let (pa, pb) = (anemo::PeerId(a), anemo::PeerId(b));
+            let want = a.cmp(&b);
+            let got = pa.cmp(&pb);
+            let consistent = pa.partial_cmp(&pb) == Some(got)
+                && (pa < pb) == (got == Ordering::Less)
+                && (pa > pb) == (got == Ordering::Greater)
+                && (pa == pb) == (got == Ordering::Equal)
+                && pb.cmp(&pa) == got.reverse()
+                && (pb < pa) == (got == Ordering::Greater);
+            out.evaluations += 1;
+            out.states += 1;
+            *out.classes.entry(format!("order {want:?}")).or_default() += 1;
+            if got != want || !consistent {
+                bad += 1;
+                if bad <= 3 {
+                    out.violation(
+                        "identity-order",
+                        format!("identities that first differ at byte {pos} with values {x:#04x} and {y:#04x}: cmp gives {got:?} (reverse {:?}, a<b {}, b<a {}), the byte-wise lexicographic order is {want:?}; the tie-break of a mutual dial needs one total order both sides agree on", pb.cmp(&pa), pa < pb, pb < pa),
+                        json!({"unit": unit, "x": x, "y": y}),
+                    );
+                }
+            }
+        }
+    }
+}
+
 impl Check for C05 {
     fn meta(&self, _tier: Tier) -> CheckMeta {
         CheckMeta {
@@ -362,6 +439,22 @@ impl Check for C05 {
                 }
             }
         }
+        // identity pairs whose first differing bytes stand in a particular relation
+        for ids in ["d80", "cross", "wide", "eqfirst"] {
+            for a_greater in [false, true] {
+                for (off, lab, lba) in [(0i64, 5u64, 5u64), (3, 1, 9), (-3, 9, 1)] {
+                    if tier == Tier::Quick && off != 0 {
+                        continue;
+                    }
+                    u.push(json!({"kind":"simnet","ids":ids,"a_greater":a_greater,"offset_ms":off,"lat_ab_ms":lab,"lat_ba_ms":lba,"bound":tier.pick(1, 2),"fate_budget":60}));
+                }
+            }
+        }
+        // the total order on identities itself: every pair of byte values at the first differing
+        // position, at four positions, with the tails ordered the other way round
+        for pos in [0usize, 1, 15, 31] {
+            u.push(json!({"kind":"order","pos":pos}));
+        }
         u.extend(super::c05pair::units(tier == Tier::Thorough));
         // one side's registry under real threads: the losing connection's handler exit against
         // the registration of the other connection (loom, harness/lockx)
@@ -372,6 +465,10 @@ impl Check for C05 {
     fn run_unit(&self, _tier: Tier, unit: &Value, out: &mut UnitResult) {
         if unit["kind"] == "threads" {
             super::c04::run_threads(unit, out);
+            return;
+        }
+        if unit["kind"] == "order" {
+            order_unit(unit, out);
             return;
         }
         if unit["kind"] == "pair" {
@@ -399,6 +496,11 @@ impl Check for C05 {
 
     fn replay(&self, replay: &Value) -> String {
         let unit = replay["unit"].clone();
+        if unit["kind"] == "order" {
+            let mut out = UnitResult::default();
+            order_unit(&unit, &mut out);
+            return format!("unit {unit}\nviolations: {:?}", out.violations.iter().map(|v| (&v.key, &v.message)).collect::<Vec<_>>());
+        }
         if unit["kind"] == "pair" {
             let mut out = UnitResult::default();
             super::c05pair::run_unit(&unit, &mut out);
